@@ -353,4 +353,4 @@ def main(run: common.Run):
 
 
 if __name__ == "__main__":
-    common.guarded_main("C10", "proof", main)
+    common.guarded_main("C10", "proof", main, generic_replay=True)
